@@ -134,9 +134,10 @@ type vzNode struct {
 	curH uint64
 	curR uint32
 
-	fin    map[uint64]string
-	finSeq []uint64
-	signed map[string]map[string]bool
+	fin        map[uint64]string
+	finSeq     []uint64
+	signed     map[string]map[string]bool // kind/h/r -> sign bytes of signatures that left the signer for good (stored or released)
+	lastSigned map[string]string          // kind/h/r -> sign bytes the signer produced last (may die with the process before it is stored)
 }
 
 func (nd *vzNode) ident() string { return fmt.Sprintf("n%d.%d", nd.idx, nd.inc) }
